@@ -129,7 +129,7 @@ class C14(Check):
     floor_nontrivial = 20
     required_counters = ("distance_evals", "dist_roundtrip_evals", "coord_roundtrip_evals", "mean_evals")
     shards = (8, 16)
-    budget = (60, 420)
+    budget = (300, 420)
 
     def cases(self, tier, seed):
         nb, n = (10, 40000) if tier == "quick" else (120, 200000)
